@@ -14,6 +14,8 @@ _GATE_SKIP = ['interrogateBuilder.cxx', 'cppFile.cxx', 'filename.cxx', 'cppDecla
 # bound the tree walk (the unwinding assertion proves the bound) and the string loops (all names are <= 5 bytes)
 _GATE_LOOPS = {'_ZNKSt8_Rb_treeINSt7__cxx1112basic_stringIcSt11char_traitsIcESaIcEEES5_St9_IdentityIS5_ESt4lessIS5_ESaIS5_EE4findERKS5_.0': 3,
                'll_memcmp.0': 9, 'll_strlen.0': 9, 'll_memcpy.0': 80}
+# outer while loop of read_command_file: one iteration per line plus the final failing getline
+_RCF_OUTER = '_ZN18InterrogateBuilder17read_command_fileERSi.4'
 _FILE_DOMAIN = ('file source class in {local, alternate, system, none}, extension in {h, c, C, i}, the one ignorefile entry '
                 'naming this file or another, min_vis in {published, public}, visibility in published..unknown')
 
@@ -39,24 +41,26 @@ HARNESSES = [
   'property': 'C04',
   'src': 'c04_command_file.cxx',
   'entry': 'harness_c04_command_lines',
-  'tus': [_B], 'models': ['getline.c'], 'skip_ctors': ['interrogateBuilder.cxx'],
+  'tus': [_B], 'models': ['getline.c', 'noinline.c'], 'skip_ctors': ['interrogateBuilder.cxx'],
+  'tuflags': ['-fno-inline'],     # keeps basic_string::_M_create out of line everywhere so that SSO_ONLY really cuts it
   'cut': SSO_ONLY + ['_ZN18InterrogateBuilder10do_commandERKNSt7__cxx1112basic_stringIcSt11char_traitsIcESaIcEEES7_'],
   'desc': 'InterrogateBuilder::read_command_file line splitting through the istream byte model + getline model (two terminated lines)',
   'domain': 'line 1 of 0..LMAX and line 2 of 0..L2MAX bytes over {a, b, space, tab, #}, each newline-terminated',
   'oracle': 'do_command receives, per line that has one, (first word, rest trimmed) of the part before #; blank and comment-only '
             'lines are skipped; every line is processed in order',
-  'bounds': {'quick': {'defs': {'LMAX': 5, 'L2MAX': 2}, 'unwind': 12, 'cap': 600},
-             'thorough': {'defs': {'LMAX': 8, 'L2MAX': 3}, 'unwind': 16, 'cap': 3000}}},
+  'bounds': {'quick': {'defs': {'LMAX': 5, 'L2MAX': 2}, 'unwind': 10, 'unwindset': {_RCF_OUTER: 4}, 'cap': 600},
+             'thorough': {'defs': {'LMAX': 8, 'L2MAX': 3}, 'unwind': 13, 'unwindset': {_RCF_OUTER: 4}, 'cap': 3000}}},
  {'id': 'c04_command_lastline',
   'property': 'C04',
   'src': 'c04_command_file.cxx',
   'entry': 'harness_c04_command_lastline',
-  'tus': [_B], 'models': ['getline.c'], 'skip_ctors': ['interrogateBuilder.cxx'],
+  'tus': [_B], 'models': ['getline.c', 'noinline.c'], 'skip_ctors': ['interrogateBuilder.cxx'],
+  'tuflags': ['-fno-inline'],
   'cut': SSO_ONLY + ['_ZN18InterrogateBuilder10do_commandERKNSt7__cxx1112basic_stringIcSt11char_traitsIcESaIcEEES7_'],
   'desc': 'read_command_file on a file whose last line is not newline-terminated',
   'domain': 'one line of 0..LMAX bytes over {a, b, space, tab, #} with no trailing newline',
   'oracle': 'the command on the unterminated last line is executed like any other',
-  'bounds': {'quick': {'defs': {'LMAX': 5}, 'unwind': 10, 'cap': 600}}},
+  'bounds': {'quick': {'defs': {'LMAX': 5}, 'unwind': 10, 'unwindset': {_RCF_OUTER: 3}, 'cap': 600}}},
  {'id': 'c04_param_list',
   'property': 'C04',
   'src': 'c04_command_file.cxx',
